@@ -10,6 +10,7 @@
    4 lp       [4; m; e; x..] (pad = m * 2^-e) -> lpad :: enc_zlist (padded) ++ enc_zlist (cropped)
    5 savgol   [5; window; polynom; n; x..; y..] over Q -> 0 :: code | 1 :: n :: (floor v; floor (frac v * 2^40)) x n
    8 stack    [8; ntr; ns; word..; data..] integer data, default fcn_agg=np.nanmean: truncated means
+   10 stack   [10; ntr; nkeys; word..; header vectors..] -> per-key per-label sums of the header, fold
    9 svd      [9; nc; rank (0 = None); collection..] -> groups (rank; size; indices) and the scatter result
    6 traj     [6; nc; x..; y..] -> nrows :: ncols :: enc_zlist entries ++ enc_zlist trcount *)
 From Coq Require Import ZArith List Bool QArith Qreduction.
@@ -57,6 +58,19 @@ Definition run_stack (l : list Z) : list Z :=
       let data := chunks_of (Z.to_nat ntr) (Z.to_nat ns) (skipn (Z.to_nat ntr) r) in
       let '(st, fold) := stack (wsum_from 1 (Z.to_nat ns)) data word in
       Z.of_nat (length st) :: concat st ++ fold
+  | _ => [-999]
+  end.
+
+(* stack with a header: [ntr; nkeys; word..; header vectors (nkeys x ntr)] -> ngroups :: per key the per-label
+   SUMS of the header values (mean x fold on the implementation side) ++ fold *)
+Definition run_stack_header (l : list Z) : list Z :=
+  match l with
+  | ntr :: nkeys :: r =>
+      let n := Z.to_nat ntr in
+      let word := firstn n r in
+      let hdrs := chunks_of (Z.to_nat nkeys) n (skipn n r) in
+      let '(st, hs, fold) := stack_header (fun rows : list Z => zsum rows) (fun v : list Z => zsum v) word hdrs word in
+      Z.of_nat (length fold) :: concat hs ++ fold
   | _ => [-999]
   end.
 
@@ -181,6 +195,7 @@ Definition run (inp : list Z) : list Z :=
   | 6 :: r => run_traj r
   | 8 :: r => run_stack_int r
   | 9 :: r => run_svd r
+  | 10 :: r => run_stack_header r
   | _ => [-999]
   end.
 
